@@ -44,6 +44,7 @@ func src(n ast.Node) string {
 }
 
 type pkg struct {
+	files   []*ast.File
 	funcs   map[string]*ast.FuncDecl // "Recv.Name" or "Name"
 	consts  map[string]string        // string constants
 	globals map[string]ast.Expr      // package-level var initialisers
@@ -55,6 +56,7 @@ func load(p *pkg, path string) {
 		fmt.Fprintln(os.Stderr, "subproc2coq:", err)
 		os.Exit(1)
 	}
+	p.files = append(p.files, f)
 	for _, d := range f.Decls {
 		switch x := d.(type) {
 		case *ast.FuncDecl:
@@ -157,6 +159,9 @@ type facts struct {
 	StopFlush         bool     `json:"stop_flush"`
 	FlushStreams      []string `json:"flush_streams"`
 	RunConverts       bool     `json:"run_converts"`
+	WaitDelaySet      bool     `json:"wait_delay_set"`
+	CancelHook        bool     `json:"cancel_hook"`
+	OwnGroup          bool     `json:"own_group"`
 	ExecSeq           []string `json:"exec_seq"`
 	EndOkIffNil       bool     `json:"end_ok_iff_nil"`
 	OutputPlain       bool     `json:"output_plain"`
@@ -369,28 +374,53 @@ func flushAfterWait(f *ast.FuncDecl, r string, waitCalls ...string) bool {
 
 func wrapper(sub *pkg, F *facts) {
 	cc := sub.fn("command.createCommand")
+	rc := recv(cc)
+	if len(cc.Type.Params.List) != 1 || len(cc.Type.Params.List[0].Names) != 1 {
+		die(cc.Pos(), "createCommand: parameters")
+	}
+	cctx := cc.Type.Params.List[0].Names[0].Name
 	seenOut, seenErr := false, false
 	for _, st := range cc.Body.List {
-		a, ok := st.(*ast.AssignStmt)
-		if !ok || len(a.Lhs) != 1 || len(a.Rhs) != 1 {
-			if mentions(st, ".Stdout") || mentions(st, ".Stderr") {
-				die(st.Pos(), "createCommand: %s", src(st))
-			}
-			continue
-		}
-		switch src(a.Lhs[0]) {
-		case "cmd.Stdout":
+		s := src(st)
+		a, isAssign := st.(*ast.AssignStmt)
+		switch {
+		case s == "newCmd, newArgs := "+rc+".as.Redefine("+rc+".cmd, "+rc+".args...)", s == "cmd := exec.CommandContext("+cctx+", newCmd, newArgs...)",
+			s == "cmd.Env = cmd.Environ()", s == "cmd.Env = append(cmd.Env, "+rc+".env...)", s == "setGroupAttrToCmd(cmd)", s == "return cmd":
+		case isAssign && len(a.Lhs) == 1 && len(a.Rhs) == 1 && src(a.Lhs[0]) == "cmd.Stdout":
 			F.StdoutFlag, seenOut = streamerFlag(sub, a.Rhs[0]), true
-		case "cmd.Stderr":
+		case isAssign && len(a.Lhs) == 1 && len(a.Rhs) == 1 && src(a.Lhs[0]) == "cmd.Stderr":
 			F.StderrFlag, seenErr = streamerFlag(sub, a.Rhs[0]), true
+		case isAssign && len(a.Lhs) == 1 && src(a.Lhs[0]) == "cmd.WaitDelay":
+			// recorded by the package-wide scan below
 		default:
-			if mentions(st, ".Stdout") || mentions(st, ".Stderr") {
-				die(st.Pos(), "createCommand: %s", src(st))
-			}
+			die(st.Pos(), "createCommand: %s", s)
 		}
 	}
 	if !seenOut || !seenErr {
 		die(cc.Pos(), "createCommand: cmd.Stdout / cmd.Stderr not both assigned")
+	}
+	// setGroupAttrToCmd (linux): own process group, Cancel hook killing the group
+	sg := sub.fn("setGroupAttrToCmd")
+	if len(sg.Type.Params.List) != 1 || len(sg.Type.Params.List[0].Names) != 1 {
+		die(sg.Pos(), "setGroupAttrToCmd: parameters")
+	}
+	cp := sg.Type.Params.List[0].Names[0].Name
+	for _, st := range sg.Body.List {
+		s := src(st)
+		a, isAssign := st.(*ast.AssignStmt)
+		switch {
+		case isAssign && len(a.Lhs) == 1 && len(a.Rhs) == 1 && src(a.Lhs[0]) == cp+".SysProcAttr":
+			rhs := src(a.Rhs[0])
+			if !strings.HasPrefix(rhs, "&syscall.SysProcAttr{") {
+				die(st.Pos(), "setGroupAttrToCmd: %s", s)
+			}
+			F.OwnGroup = strings.Contains(rhs, "Setpgid: true")
+		case s == cp+".Cancel = func() error { return killProcessGroup("+cp+".Process.Pid) }":
+			F.CancelHook = true
+		case isAssign && len(a.Lhs) == 1 && src(a.Lhs[0]) == cp+".WaitDelay":
+		default:
+			die(st.Pos(), "setGroupAttrToCmd: %s", s)
+		}
 	}
 	fo := sub.fn("cmdWrapper.flushOutput")
 	r := recv(fo)
@@ -424,6 +454,30 @@ func wrapper(sub *pkg, F *facts) {
 	stop := sub.fn("cmdWrapper.Stop")
 	r = recv(stop)
 	F.StopFlush = flushAfterWait(stop, r, r+".cmd.Wait()")
+}
+
+// setsWaitDelay: some statement of the package assigns a field named WaitDelay (of an exec.Cmd), or a composite literal
+// gives one.
+func setsWaitDelay(p *pkg) bool {
+	found := false
+	for _, f := range p.files {
+		ast.Inspect(f, func(n ast.Node) bool {
+			switch x := n.(type) {
+			case *ast.AssignStmt:
+				for _, l := range x.Lhs {
+					if se, ok := l.(*ast.SelectorExpr); ok && se.Sel.Name == "WaitDelay" {
+						found = true
+					}
+				}
+			case *ast.KeyValueExpr:
+				if id, ok := x.Key.(*ast.Ident); ok && id.Name == "WaitDelay" {
+					found = true
+				}
+			}
+			return true
+		})
+	}
+	return found
 }
 
 // ---- executor.go, messaging.go ----
@@ -676,23 +730,38 @@ func main() {
 		out = os.Args[1]
 	}
 	u := filepath.Join(repo, "utils")
-	sub := newPkg(filepath.Join(u, "subprocess", "logging.go"), filepath.Join(u, "subprocess", "command_wrapper.go"),
-		filepath.Join(u, "subprocess", "executor.go"), filepath.Join(u, "subprocess", "messaging.go"))
+	// every file of the package which is compiled on linux without the verif tag (the hook file only re-exports)
+	all, _ := filepath.Glob(filepath.Join(u, "subprocess", "*.go"))
+	var subFiles []string
+	for _, n := range all {
+		b := filepath.Base(n)
+		if strings.HasSuffix(b, "_test.go") || strings.HasSuffix(b, "_windows.go") || strings.HasSuffix(b, "_darwin.go") || b == "export_verif.go" {
+			continue
+		}
+		subFiles = append(subFiles, n)
+	}
+	if len(subFiles) < 5 {
+		fmt.Fprintln(os.Stderr, "subproc2coq: utils/subprocess: files missing")
+		os.Exit(1)
+	}
+	sub := newPkg(subFiles...)
 	pr := newPkg(filepath.Join(u, "proc", "errors.go"))
 	plat := newPkg(filepath.Join(u, "platform", "os.go"))
 	var F facts
 	logging(sub, plat, &F)
 	wrapper(sub, &F)
+	F.WaitDelaySet = setsWaitDelay(sub)
 	executor(sub, &F)
 	procErrors(pr, &F)
 
 	var b strings.Builder
-	b.WriteString("(* GENERATED by translator-c18/cmd/subproc2coq from utils/subprocess/{logging,command_wrapper,executor,messaging}.go,\n   utils/proc/errors.go and utils/platform/os.go of the working tree. Do not edit. *)\n")
+	b.WriteString("(* GENERATED by translator-c18/cmd/subproc2coq from utils/subprocess/*.go (linux build),\n   utils/proc/errors.go and utils/platform/os.go of the working tree. Do not edit. *)\n")
 	b.WriteString("From Coq Require Import List ZArith Bool.\nImport ListNotations.\nFrom GU Require Import C18.Facts.\nLocal Open Scope Z_scope.\n\n")
 	b.WriteString("Definition gen_facts : facts := {|\n")
 	fmt.Fprintf(&b, "  sep := %d;\n  loop_ops := %s;\n  tail_ops := %s;\n  flush_ops := %s;\n", F.Sep, coqList(F.LoopOps), coqList(F.TailOps), coqList(F.FlushOps))
 	fmt.Fprintf(&b, "  lp_resets := %s;\n  lp_drops_empty := %s;\n  lp_by_stream := %s;\n  stdout_flag := %s;\n  stderr_flag := %s;\n", coqBool(F.LpResets), coqBool(F.LpDropsEmpty), coqBool(F.LpByStream), coqBool(F.StdoutFlag), coqBool(F.StderrFlag))
 	fmt.Fprintf(&b, "  run_flush := %s;\n  stop_flush := %s;\n  flush_streams := %s;\n  run_converts := %s;\n", coqBool(F.RunFlush), coqBool(F.StopFlush), coqList(F.FlushStreams), coqBool(F.RunConverts))
+	fmt.Fprintf(&b, "  wait_delay_set := %s;\n  cancel_hook := %s;\n  own_group := %s;\n", coqBool(F.WaitDelaySet), coqBool(F.CancelHook), coqBool(F.OwnGroup))
 	fmt.Fprintf(&b, "  exec_seq := %s;\n  end_ok_iff_nil := %s;\n  output_plain := %s;\n  output_reads_always := %s;\n", coqList(F.ExecSeq), coqBool(F.EndOkIffNil), coqBool(F.OutputPlain), coqBool(F.OutputReadsAlways))
 	rs := make([]string, len(F.Rules))
 	for i, r := range F.Rules {
